@@ -125,6 +125,46 @@ func (rn *runner) fixedCases() {
 			m(argv, idx...)
 		}
 	}
+	// help / version short-circuit and what comes before it (init.jq:184-216)
+	m([]string{"-f", "p_miss.jq", "-h"})                                      // the program file error comes first: 2
+	m([]string{"-h", "-f", "p_miss.jq"})                                      // `-f` is the help TOPIC: 0
+	m([]string{"--version", "--argdecode", "x", "rf_miss", ".", "a.json"}, 5) // the decode-file path is never opened: 0
+	m([]string{"--argdecode", "x", "rf_miss", ".", "a.json", "miss1"}, 4, 5)  // decode-file failure: 2, no input touched
+	m([]string{"--help", "--nosuch"})                                         // topic
+	m([]string{"--nosuch", "--help"})                                         // argument error first: 2
+	m([]string{"--raw-file", "x", "rf_miss", "--version"})
+	m([]string{"--slurpfile", "x", "rf.json", ".", "a.json"}, 4) // not an fq flag
+	// the option merge: -o beats the flag wherever it stands, mistyped / unknown -o entries are dropped silently, quirks
+	P := optsProg()
+	for _, av := range [][]string{
+		{"-n", "-o", "null_input=false", P, "a.json"}, {"-o", "null_input=false", "-n", P, "a.json"}, {"-o", "null_input=true", P, "a.json"},
+		{"-o", "slurp=yes", P, "a.json"}, {"-o", "unknownkey=1", P, "a.json"}, {"-o", "show_version=1", P, "a.json"},
+		{"-o", "show_help=formats", P, "a.json"}, {"-o", "show_help=true", P, "a.json"}, {"-o", "include_path=dir1", P, "a.json"},
+		{"-L", "dir1", "-L=rf_dir", P, "a.json"}, {"-o", `filenames=["n.json"]`, P, "a.json"}, {"-o", `filenames=["n.json"]`, "--repl", P},
+		{"-o", "expr_file=p_opts.jq", "a.json", "n.json"}, {"-f", "p_opts.jq", "a.json"}, {"-i", P}, {"-i", P, "a.json"},
+		{"-C", "-M", P, "a.json"}, {"-o", "color_output=true", P, "a.json"}, {"-o", "color_output=1", P, "a.json"}, {"-j", P, "a.json"},
+		{"-o", "join_output=1", P, "a.json"}, {"--raw-output0", "-r", P, "a.json"}, {"-d", "mp3", "--decode=json", "-d=probe", P, "a.json"},
+		{"-o", "decode_group=json", "-d", "mp3", P, "a.json"}, {"-o", "compact=@rf_miss", P, "a.json"}, {"-o", "unknownkey=@rf_miss", P, "a.json"},
+	} {
+		rn.optCase(av, "j")
+	}
+	rn.ometaCase([]string{"-c", P, "a.json"}, []string{"-o", "compact=true", P, "a.json"}, "j")
+	rn.ometaCase([]string{"-C", P, "a.json"}, []string{"-o", "color_output=true", P, "a.json"}, "j")
+	rn.ometaCase([]string{"-o", "slurp=1", "-o", "slurp=0", P, "a.json"}, []string{"--option=slurp=0", P, "a.json"}, "j")
+	// named arguments: later wins within a kind; decode-file > raw-file > JSON > string between kinds
+	B := bindProg()
+	for _, av := range [][]string{
+		{"-n", "--arg", "a", "A1", "--arg", "a", "A2", "--arg", "b", "A3", B},
+		{"-n", "--argjson", "a", "101", "--arg", "a", "A2", "--arg", "b", "A3", "--argjson", "b", `"J4"`, B},
+		{"-n", "--argdecode", "a", "bd1.json", "--raw-file", "a", "br1.txt", "--argjson", "a", "101", "--arg", "a", "A1", "--decode-file", "b", "bd2.json", B},
+		{"-n", "--raw-file", "a", "br1.txt", "--raw-file", "a", "br2.txt", "--arg", "b", "A1", B},
+		{"-n", "--arg", "a", "A1", "--arg", "b", "A2", "-o", `arg=[["a","A7"],["b","A8"]]`, B},
+		{"-n", "--arg", "a", "A1", "--arg", "b", B},
+		{"-n", "--arg", "a", "A1", "--argjson", "b", "{", B},
+		{"-n", "--arg", "a", "A1", "--argdecode", "b", "rf.bin", B},
+	} {
+		rn.bindCase(av)
+	}
 	m([]string{})
 	m([]string{"-v", "(", "miss1"}, 2)
 	m([]string{"-h", "nosuchtopic"})
